@@ -43,4 +43,17 @@ theorem loadFail_bare_source :
   · intro eb; cases eb <;> decide
   · intro c e eb; cases c <;> cases e <;> cases eb <;> decide
 
+/-- the provider's OWN cancellation checks (top of the loops of runFullScan / runPreloaded, Done branch of their `select`)
+return the class `canceled` and return it bare: `Model.C14.ownCtxEnd` -/
+theorem own_ctx_source :
+    ownCtxEnd = ⟨Gen.ChosenCases.runFullScanDone, Gen.ChosenCases.runFullScanCtxBare⟩ ∧
+    ownCtxEnd = ⟨Gen.ChosenCases.runPreloadedDone, Gen.ChosenCases.runPreloadedCtxBare⟩ := by decide
+
+/-- the only readers of the config field `Preload` are Run and Release -/
+theorem preload_sites_source : Gen.ChosenCases.preloadReadSites = preloadSites := by decide
+
+/-- `Provider.Release` hands the ammo back to the decoder exactly when the provider is not preloading -/
+theorem release_source (preload : Bool) : Gen.ChosenCases.releaseToPool preload = releasesToPool preload := by
+  cases preload <;> rfl
+
 end Pandora.Bridge.C14
